@@ -60,6 +60,29 @@ def ref_line_contents(line: str) -> str:
     return line
 
 
+def same_str(a: str, b: str) -> bool:
+    """a == b, decided code point by code point.  (Tool work-around: CrossHair 0.0.110's == on two
+    SYMBOLIC strings can be wrongly False when one is the result of str.join and the other a
+    slice - SymbolicList vs SliceView are compared as list vs tuple.  Comparison with a
+    concrete str, and of integers, is not affected.)"""
+    n = len(a)
+    if n != len(b):
+        return False
+    for i in range(n):
+        if ord(a[i]) != ord(b[i]):
+            return False
+    return True
+
+
+def same_lines(xs: Sequence[str], ys: Sequence[str]) -> bool:
+    if len(xs) != len(ys):
+        return False
+    for i in range(len(xs)):
+        if not same_str(xs[i], ys[i]):
+            return False
+    return True
+
+
 def ref_cmp(op: str, a: int, b: int) -> bool:
     if op == '==':
         return a == b
@@ -266,7 +289,7 @@ def ref_matcher(t, s: str, env: Env) -> bool:
     if k == 'empty':
         return s == ''
     if k == 'equals':
-        return s == env.e
+        return same_str(s, env.e)
     if k == 'equals-lit':
         return s == t[1]
     if k == 'matches':
@@ -317,8 +340,7 @@ def ref_transformer(t, s: str, env: Env) -> str:
         return ref_lower(s)
     if k == 'replace':
         _, preserve, sel, rx, repl = t
-        # a literal replacement is a template: backslash-n denotes new-line (no other escapes are used here)
-        repl_s = env.e if repl == 'E' else repl.replace('\\n', '\n')
+        repl_s = env.e if repl == 'E' else repl
         out = []
         n = 0
         for line in ref_lines(s):
